@@ -1513,8 +1513,12 @@ def run_c14(ctx):
     # bits of a disabled check do not matter: flip version / reserved / (control) P,O bits under options 0
     flips, ftags = [], []
     pairs = []
-    for _ in range(ctx.scale(4000, 40000)):
-        b = bytearray(rng.choice([corpus.rand_valid_ctrl_bytes(rng, rng.randrange(0, 4)), corpus.rand_valid_data_bytes(rng)]))
+    anyin = [b for (_, b) in inputs[65536:] if 2 <= len(b) <= 4096]
+    for j in range(ctx.scale(4000, 40000)):
+        if j % 3 == 2 and anyin:
+            b = bytearray(rng.choice(anyin))       # ... also on inputs that are not valid messages (perturbed, padded, truncated)
+        else:
+            b = bytearray(rng.choice([corpus.rand_valid_ctrl_bytes(rng, rng.randrange(0, 4)), corpus.rand_valid_data_bytes(rng)]))
         word = int.from_bytes(b[:2], 'big')
         choices = [1 << i for i in RESERVED_BITS] + [0x10, 0x20, 0x40, 0x80]
         if word & 0x100:
@@ -1530,6 +1534,30 @@ def run_c14(ctx):
             if (a if cls(a) == 'Ok' else cls(a)) != (b if cls(b) == 'Ok' else cls(b)):
                 rep.fail('with every check off, a version/reserved/unused header bit changed the result', case=flips[2 * k + 1], executor=w,
                          base=a[:200], flipped=b[:200])
+    # where implementation and model disagree at all, try every header bit of a disabled check on that very input
+    seen = []
+    for d in rep.disagreements[:30]:
+        try:
+            b = bytes.fromhex(d['case'].split('\t')[-1])
+        except ValueError:
+            continue
+        if len(b) >= 2 and b not in seen:
+            seen.append(b)
+    if seen:
+        tcases, tp = [], []
+        for b in seen:
+            word = int.from_bytes(b[:2], 'big')
+            for bit in [1 << i for i in RESERVED_BITS] + [0x10, 0x20, 0x40, 0x80] + ([0x4000, 0x8000] if word & 0x100 else []):
+                tp.append((len(tcases), len(tcases) + 1))
+                tcases += ['DEC\t0\t' + b.hex(), 'DEC\t0\t' + (be(word ^ bit, 2) + b[2:]).hex()]
+        rt = ctx.runner.run(tcases, IMPLS)
+        rep.search_evals += len(tcases)
+        for w in IMPLS:
+            for (i, j) in tp:
+                a, bb = rt[w][i], rt[w][j]
+                if (a if cls(a) == 'Ok' else cls(a)) != (bb if cls(bb) == 'Ok' else cls(bb)):
+                    rep.fail('with every check off, a version/reserved/unused header bit changed the result', case=tcases[j], executor=w,
+                             base=a[:200], flipped=bb[:200])
     rep.exhaustive = True
     rep.notes['exhaustive_domain'] = 'all 65536 flag words x 8 option sets + try_read over a control and a data remainder'
     rep.notes['rule'] = ('every flag word under all 8 option sets and the default entry point (exhaustive), the structured corpus under all 8 sets, '
